@@ -35,6 +35,35 @@ def parse_schema(sch):
     return r.unwrap(), text
 
 
+def exercise(fcp):
+    """what other read-only consumers of a parsed schema do with the object before the codec is used on it: the packed layout
+    encoder with and without array unrolling over every binding, reflection, to_dict, describe.  None of it may leave a mark."""
+    from fcp.encoding import make_encoder, PackedEncoderContext
+    for unroll in (True, False):
+        try:
+            enc = make_encoder("packed", fcp, PackedEncoderContext().with_unroll_arrays(unroll))
+        except Exception:
+            continue
+        for impl in list(fcp.impls):
+            try:
+                enc.generate(impl)
+            except Exception:
+                pass          # bindings without static size are refused
+    for f in (lambda: fcp.reflection(), lambda: fcp.to_dict()):
+        try:
+            f()
+        except Exception:
+            pass
+    try:
+        from fcp.describe import DescribeVisitor
+        from fcp.specs.type import StructType
+        for st in fcp.structs:
+            DescribeVisitor(fcp).visit(StructType(st.name))
+    except Exception:
+        pass
+    return fcp
+
+
 def parse_schema_split(sch, workdir, variant):
     """the same abstract schema written as SEVERAL files and loaded with get_fcp -> (FcpV2, {path: text}).
     variant 0: main holds the types and imports `bindings` (impls, services, devices) at its end;
